@@ -429,6 +429,57 @@ theorem rule_acts_on_grid {cfg : Cfg} (hR : 0 < cfg.rule) (hH : 0 < cfg.hyd) (va
     exact Int.mul_le_mul_of_nonneg_right hit (le_of_lt hR)
   exact ⟨e, he, P, hp, hl, hisr, fun hch => event_accepted hR P.inv P.nodup _ hl (Or.inr hisr) hch⟩
 
+/-! ### range conditions along a run -/
+
+/-- **range conditions (and everything else due at the tentative time) at full steps**: when a pass accepts its tentative
+time (no partial step) and some control is due there with backtrack 0 — e.g. a control with a `>`, `>=`, `<`, `<=`,
+`after`, `before` condition that currently holds — the values after the pass read, on every key, as those of the event at
+that time: by `event_value` the target of the range control has its commanded value unless a control of higher
+priority due at the same time (or a later registered one of equal priority) writes the same target -/
+theorem range_controls_at_full_steps {cfg : Cfg} (hR : 0 < cfg.rule) {s : St} (inv : Inv cfg s) (hnd : NodupKeys s.vals)
+    (hfull : (presolve cfg false s).simTime = s.simTime) (d : Due) (hd : d ∈ presolveDue cfg false s) (hb : d.back = 0) :
+    ∀ k, (presolve cfg false s).vals.get k =
+      (eventAt cfg s.vals s.simTime s.ruleIter (presolveDue cfg false s) s.simTime).get k := by
+  have E := presolve_events hR inv hnd
+  have hev : (∃ d ∈ presolveDue cfg false s, s.simTime = s.simTime - d.back) ∨ isRuleAt cfg s.ruleIter s.simTime :=
+    Or.inl ⟨d, hd, by omega⟩
+  cases hc : changed s.vals (presolve cfg false s).vals with
+  | true =>
+    have := (E.landed hc).2
+    simp only at this
+    rw [hfull] at this
+    exact this
+  | false =>
+    have hun := E.before s.simTime (le_refl _) (Or.inr hc) hev
+    intro k
+    rw [changed_false_get hc hnd E.nodup k,
+      changed_false_get hun hnd (by
+        unfold eventAt
+        by_cases h : isRuleAt cfg s.ruleIter s.simTime
+        · rw [if_pos h]; exact (hnd.rulesAt cfg _).foldl_run _
+        · rw [if_neg h]; exact hnd.foldl_run _) k]
+
+/-- a range control `IF TIME > 100 THEN key 0 := 0` and a time control on another key at 2000 s, 1 h steps -/
+def cfgRange : Cfg :=
+  { hyd := 3600, rule := 3600, report := 0, duration := 7200, startClock := 0,
+    presolve := [⟨0, 3, .sim ⟨.gt, 100, 0⟩, [⟨0, 0⟩], []⟩, ⟨1, 3, .sim ⟨.eq, 2000, 0⟩, [⟨1, 0⟩], []⟩], rules := [] }
+
+/-- the naive statement "at EVERY accepted time inside the interval the target has the commanded value" is FALSE of the
+code (and of the model): a `>` / `<` condition carries backtrack 0, so the control is applied at the END of the pass
+only; when another control cuts the pass short, the accepted partial time 2000 s lies inside `t > 100` but key 0 still
+has its old value — it is set at the next full step (3600 s) -/
+def RangeAtEveryAcceptedTime : Prop :=
+  ∀ p ∈ (runSim cfgRange 0 (-1) [(0, 1), (1, 1)]).2.map (fun r => (r.time, r.vals.get 0)), p.1 > 100 → p.2 = 0
+
+theorem range_at_every_accepted_time_counterexample : ¬ RangeAtEveryAcceptedTime := by
+  intro h
+  have hm : ((2000 : Int), (1 : Int)) ∈ (runSim cfgRange 0 (-1) [(0, 1), (1, 1)]).2.map (fun r => (r.time, r.vals.get 0)) := by decide
+  have := h _ hm (by decide)
+  revert this; decide
+
+example : (runSim cfgRange 0 (-1) [(0, 1), (1, 1)]).2.map (fun r => (r.time, r.vals.get 0, r.vals.get 1)) =
+    [(0, 1, 1), (2000, 1, 0), (3600, 0, 0), (7200, 0, 0)] := by decide
+
 /-- the due list is processed in the time order of the instants (backtracks descending) -/
 theorem due_in_time_order (cfg : Cfg) (s : St) :
     (presolveDue cfg false s).Pairwise (fun a b => s.simTime - a.back ≤ s.simTime - b.back) := by
